@@ -5,11 +5,12 @@ response script (consumed one element per request) or from a handler, logs reque
 counts transfers in flight and parks on scheduler gates before the response and before
 each chunk."""
 import asyncio
+import os
 import sys
 from contextlib import asynccontextmanager
 from datetime import datetime, timezone
 
-sys.path.insert(0, "/repo")
+sys.path.insert(0, os.environ.get("VERIF_REPO", "/repo"))
 
 from apt_mirror.aiofile import BaseAsyncIOFileWriterFactory  # noqa: E402
 from apt_mirror.download.downloader import Downloader  # noqa: E402
